@@ -179,7 +179,35 @@ func cmdReplay(path string) int {
 		fmt.Fprintln(os.Stderr, "replay: unknown property", sc.Property)
 		return 2
 	}
+	if h := sc.History; h != nil {
+		// re-run the recorded range of run indices; the verdict is what the LAST index reports
+		want := ""
+		if sc.Violation != nil {
+			want = sc.Violation.Oracle
+		}
+		if h.Step <= 0 || h.From > h.Upto {
+			fmt.Fprintln(os.Stderr, "replay: bad history range")
+			return 2
+		}
+		debug.SetGCPercent(800)
+		st := core.NewStats()
+		for i := h.From; i <= h.Upto; i += h.Step {
+			c.Run(c, h.Seed, i, h.Tier, st)
+		}
+		for _, f := range st.Found {
+			if f.Original == h.Upto && (want == "" || f.V.Oracle == want) {
+				fmt.Printf("REPLAY-VIOLATION property=%s oracle=%s (run index %d after run indices %d..%d step %d in one process)\n%s\n", f.V.Property, f.V.Oracle, h.Upto, h.From, h.Upto, h.Step, f.V.Message)
+				fmt.Printf("VIOLATION property=%s replay=%s\n", sc.Property, path)
+				return 1
+			}
+		}
+		fmt.Printf("REPLAY-CLEAN property=%s (expected oracle %q at run index %d)\n", sc.Property, want, h.Upto)
+		return 0
+	}
 	vs := c.Replay(c, sc)
+	for r := 1; r < sc.Repeat; r++ {
+		vs = c.Replay(c, sc)
+	}
 	want := ""
 	if sc.Violation != nil {
 		want = sc.Violation.Oracle
@@ -327,7 +355,8 @@ func cmdCheck(prop, tier string) int {
 	seenKnown := map[string]bool{}
 	seenOracle := map[string]bool{}
 	nViol := 0
-	unreplayable := 0
+	attempts := map[string]int{}
+	notReproduced := map[string]string{}
 	var lines []string
 	for i := range total.Found {
 		f := &total.Found[i]
@@ -338,28 +367,90 @@ func cmdCheck(prop, tier string) int {
 			}
 			continue
 		}
-		if seenOracle[f.V.Oracle] {
+		if seenOracle[f.V.Oracle] || attempts[f.V.Oracle] >= 6 {
 			continue
 		}
+		attempts[f.V.Oracle]++
+		// confirm by replaying in a fresh process; when that is clean, replay the same scenario two and
+		// three times in one fresh process (state the code under test keeps process-wide leaks from run
+		// to run: the worker saw it because earlier runs had happened in its process)
+		var path string
+		confirmed := false
+		var lastOut []byte
+		lastCode := 0
+		for _, rep := range []int{0, 2, 3} {
+			f.Scenario.Repeat = rep
+			p, err := core.WriteReplay(replayDir, f.Scenario)
+			if err != nil {
+				fmt.Fprintln(os.Stderr, "check:", err)
+				return 2
+			}
+			cmd := exec.Command(exe, "replay", p)
+			out, rerr := cmd.CombinedOutput()
+			code := 0
+			if ee, ok := rerr.(*exec.ExitError); ok {
+				code = ee.ExitCode()
+			} else if rerr != nil {
+				code = 2
+			}
+			lastOut, lastCode = out, code
+			if code == 1 {
+				path, confirmed = p, true
+				break
+			}
+			_ = os.Remove(p)
+		}
+		if !confirmed && attempts[f.V.Oracle] <= 2 {
+			// last resort: the violation needs what earlier runs of the worker left behind in process-wide
+			// state of the code under test. Re-run the worker's run indices that preceded it, shortest
+			// suffix first (1, 2, 4, ... preceding runs), each attempt in a fresh process.
+			f.Scenario.Repeat = 0
+			for span := 0; !confirmed; {
+				from := f.Original - span*nw
+				if from < 0 {
+					from = f.Original % nw
+				}
+				f.Scenario.History = &core.HistoryReplay{Tier: tier, Seed: seed, From: from, Step: nw, Upto: f.Original}
+				p, err := core.WriteReplay(replayDir, f.Scenario)
+				if err != nil {
+					fmt.Fprintln(os.Stderr, "check:", err)
+					return 2
+				}
+				out, rerr := exec.Command(exe, "replay", p).CombinedOutput()
+				if ee, ok := rerr.(*exec.ExitError); ok && ee.ExitCode() == 1 {
+					path, confirmed = p, true
+					break
+				}
+				lastOut = out
+				_ = os.Remove(p)
+				if from == f.Original%nw {
+					break
+				}
+				if span == 0 {
+					span = 1
+				} else {
+					span *= 2
+				}
+			}
+			if !confirmed {
+				f.Scenario.History = nil
+			}
+		}
+		if !confirmed {
+			notReproduced[f.V.Oracle] = fmt.Sprintf("check: violation %s did not reproduce in a fresh process (exit %d):\n%s\n", f.V.Oracle, lastCode, lastOut)
+			continue
+		}
+		delete(notReproduced, f.V.Oracle)
 		seenOracle[f.V.Oracle] = true
-		path, err := core.WriteReplay(replayDir, f.Scenario)
-		if err != nil {
-			fmt.Fprintln(os.Stderr, "check:", err)
-			return 2
+		if h := f.Scenario.History; h != nil {
+			if h.From == h.Upto {
+				lines = append(lines, fmt.Sprintf("-- %s: the minimised scenario does not fail on its own; run index %d as generated (several evaluations in one process) does: the code under test keeps state between runs", f.V.Oracle, h.Upto))
+			} else {
+				lines = append(lines, fmt.Sprintf("-- %s appears at run index %d only after run indices %d..%d (step %d) have run in the same process: the code under test keeps state between runs", f.V.Oracle, h.Upto, h.From, h.Upto-h.Step, h.Step))
+			}
 		}
-		// confirm by replaying in a fresh process
-		cmd := exec.Command(exe, "replay", path)
-		out, rerr := cmd.CombinedOutput()
-		code := 0
-		if ee, ok := rerr.(*exec.ExitError); ok {
-			code = ee.ExitCode()
-		} else if rerr != nil {
-			code = 2
-		}
-		if code != 1 {
-			unreplayable++
-			fmt.Fprintf(os.Stderr, "check: violation %s did not reproduce in a fresh process (exit %d):\n%s\n", f.V.Oracle, code, out)
-			continue
+		if f.Scenario.Repeat > 1 {
+			lines = append(lines, fmt.Sprintf("-- %s appears only in run %d of the same scenario in one process: the code under test keeps state between runs", f.V.Oracle, f.Scenario.Repeat))
 		}
 		nViol++
 		lines = append(lines, fmt.Sprintf("-- %s: %s", f.V.Oracle, firstLine(f.V.Message)))
@@ -427,7 +518,10 @@ func cmdCheck(prop, tier string) int {
 		fmt.Fprintln(os.Stderr, "check: fewer than 2 distinct non-trivial cases in this batch (budget too small?): the evidence would say nothing, exit 2")
 		return 2
 	}
-	if unreplayable > 0 {
+	for _, m := range notReproduced {
+		fmt.Fprint(os.Stderr, m)
+	}
+	if len(notReproduced) > 0 {
 		fmt.Fprintln(os.Stderr, "check: violations found that do not replay: machinery defect")
 		return 2
 	}
